@@ -254,7 +254,36 @@ func history(ctx context.Context, w *run.Worker, c *run.Case, concTouch bool) {
 		}
 	}
 
+	// alias uploads the content of an existing object under another instance
+	// name (hierarchical stores share the data between names; every name has
+	// its own index entry, and a touch through a name is a promise for reads
+	// through that name).
+	alias := func() {
+		o := objs[r.Intn(len(objs))]
+		names := []string{"", "x", "x/y", "a", "b", "q/r"}
+		nm := names[r.Intn(len(names))]
+		d := gen.SHA256Digest(nm, o.data)
+		for _, p := range objs {
+			if p.d == d {
+				return
+			}
+		}
+		u := &asm.Upload{Data: o.data, Chunks: r.Chunking(len(o.data), false)}
+		err := s.BA.Put(ctx, d, u.CASBuffer(d))
+		checkTaint()
+		if err != nil {
+			c.Logf("alias put failed: %v", err)
+			return
+		}
+		objs = append(objs, &objT{d: d, data: o.data, touch: -1})
+		w.Count("alias_uploads", 1)
+		c.Logf("put #%d = alias of another object under instance name %q allocs=%d", len(objs)-1, nm, allocs())
+	}
 	fillOne := func() {
+		if cfg.Hierarchical && len(objs) > 0 && r.Chance(1, 5) {
+			alias()
+			return
+		}
 		// upload sized to force allocations regularly
 		size := r.Range(block/4, block/2+1)
 		if r.Chance(1, 6) {
